@@ -234,6 +234,14 @@ I_C18 == Inv_C18(VSet)
 I_C05 == \A id \in Validated(VSet) :
             LET b == blocks[id]
             IN P_C05(b, blocks[b.parent], ExpectedTarget(blocks, byHeight, b.parent, b.ts), validated[id])
+(* C06 under the ideal-hash assumption: whatever part of a stored, fully valid block is altered, some rule fails.   *)
+(*  - any bit of the summary or of the evidence: the header id changes (and may or may not still be below target),  *)
+(*    and the evidence no longer equals the recomputed one (summary hash / direct comparison);                      *)
+(*  - any bit of a transaction: the id of the *header* is unchanged, the merkle root and the evidence hash differ.   *)
+Tampers(b) == { [b EXCEPT !.id = 9000 + b.id, !.powok = pw, !.evok = FALSE] : pw \in BOOLEAN }
+                \cup { [b EXCEPT !.merkleok = FALSE, !.evok = FALSE] }
+I_C06_TamperRejected == \A id \in VSet : ~IsRoot(blocks[id]) =>
+                           \A t \in Tampers(blocks[id]) : FirstFailing(t, validated[id]) # ""
 I_C03_Snapshot == snap = << >> \/ (\A id \in DOMAIN snap[1] : blocks[id] = snap[1][id] /\ utxo[id] = snap[2][id])
 A_C04_HeadOnlyUp == [][Act_C04_HeadOnlyUp]_mvars
 A_C03_Immutable == [][Act_C03_Immutable]_mvars
